@@ -19,7 +19,7 @@ type U23 struct {
 }
 
 func lift(c N2, name, root string, kind RefKind, exact, lip bool, build func(s sdf.SDF2) (sdf.SDF3, error), ref func(f Ev2) Ev3) N3 {
-	return N3{Name: name + "(" + c.Name + ")", Root: root, Depth: c.Depth + 1, Kind: kind, Exact: exact, Lip: lip,
+	return N3{Name: name + "(" + c.Name + ")", Root: root, Depth: c.Depth + 1, Kind: degrade(kind, c.Kind, root), Exact: exact, Lip: lip, OperandExact: c.Exact,
 		Build: func() (sdf.SDF3, error) {
 			s, err := c.Build()
 			if err != nil {
@@ -184,7 +184,7 @@ func Unary23() []U23 {
 // Loft builds Loft3D of two profiles.
 func Loft(c0, c1 N2, h, r float64) N3 {
 	name := fmt.Sprintf("Loft3D[h=%g round=%g](%s, %s)", h, r, c0.Name, c1.Name)
-	return N3{Name: name, Root: "Loft3D", Depth: 1 + maxInt(c0.Depth, c1.Depth), Kind: RefValue,
+	return N3{Name: name, Root: "Loft3D", Depth: 1 + maxInt(c0.Depth, c1.Depth), Kind: degrade(degrade(RefValue, c0.Kind, "Loft3D"), c1.Kind, "Loft3D"),
 		Build: func() (sdf.SDF3, error) {
 			a, err := c0.Build()
 			if err != nil {
@@ -225,7 +225,7 @@ func maxInt(a, b int) int {
 // Slice builds Slice2D of a 3D node.
 func Slice(c N3, a, n v3.Vec) N2 {
 	name := fmt.Sprintf("Slice2D[a=%v n=%v](%s)", a, n, c.Name)
-	return N2{Name: name, Root: "Slice2D", Depth: c.Depth + 1, Kind: RefValue, Lip: c.Lip,
+	return N2{Name: name, Root: "Slice2D", Depth: c.Depth + 1, Kind: degrade(RefValue, c.Kind, "Slice2D"), Lip: c.Lip,
 		Build: func() (sdf.SDF2, error) {
 			s, err := c.Build()
 			if err != nil {
@@ -264,7 +264,7 @@ func Slice(c N3, a, n v3.Vec) N2 {
 // Bin3 builds op(a, b) for op in union, difference, intersect with an optional blend.
 func Bin3(op string, bl Blend, a, b N3) N3 {
 	name := fmt.Sprintf("%s3D[%s](%s, %s)", op, bl.Name, a.Name, b.Name)
-	kind := RefValue
+	kind := degrade(degrade(RefValue, a.Kind, op+"3D"), b.Kind, op+"3D")
 	if bl.Poly {
 		kind = RefNone // blended nodes are checked by the inequalities of the property, see BlendBounds
 	}
@@ -323,7 +323,7 @@ func Bin3(op string, bl Blend, a, b N3) N3 {
 // Bin2 is the 2D counterpart of Bin3.
 func Bin2(op string, bl Blend, a, b N2) N2 {
 	name := fmt.Sprintf("%s2D[%s](%s, %s)", op, bl.Name, a.Name, b.Name)
-	kind := RefValue
+	kind := degrade(degrade(RefValue, a.Kind, op+"2D"), b.Kind, op+"2D")
 	if bl.Poly {
 		kind = RefNone
 	}
